@@ -151,7 +151,8 @@ def _models(sx):
     put(du, 'hashlib', _FakeHashlib)
     put(du, 'int', _model_int)
     put(ga, 'torch', _FakeTorch())
-    for mn in ['msdm.algorithms.lrtdp', 'msdm.algorithms.laostar', 'msdm.algorithms.search', 'msdm.core.mdp.mdp', 'msdm.algorithms.tdlearning']:
+    for mn in ['msdm.algorithms.lrtdp', 'msdm.algorithms.laostar', 'msdm.algorithms.search', 'msdm.core.mdp.mdp', 'msdm.algorithms.tdlearning',
+               'msdm.core.distributions.distributions', 'msdm.core.distributions.dictdistribution']:
         put(sys.modules[mn], 'set', SaltedOrderSet)
     stubs.NP.random = _NPRandom()
     try:
